@@ -7,8 +7,9 @@ Generated: coq/gen/C18Consts.v with
 Checked shapes (no definition generated; the Gallina model hard-codes them, so a change
 of shape must stop the run): exclusion test `root == excluded_path or
 root.startswith(excluded_path.rstrip(os.sep) + os.sep)` (since ca4e69e), special test on `os.path.basename(root)`, the root exemption
-`if is_excluded and not root == self.path: dirs[:] = []; continue`, marker directory
-removal `dirs.remove(dir_)` + `break` with a `for ... else` over files, the walk call
+`if is_excluded and not root == self.path: dirs[:] = []; continue`, removal of EVERY
+marker directory `dirs[:] = [d for d in dirs if d not in self.marker_files]` else the loop over files,
+`except SystemExit` next to `except MetadataError` in _extract_metadata (both: project skipped), the walk call
 `os.walk(self.path)`, `yield root` under `if root_is_valid`.
 """
 from __future__ import annotations
@@ -75,8 +76,9 @@ def read_source(ctx: Any = None) -> dict:
         2: ("if filename in SPECIAL_DIRS:\n    is_excluded = True\nelse:\n    for excluded_path in excluded_paths:\n"
             "        if root == excluded_path or root.startswith(excluded_path.rstrip(os.sep) + os.sep):\n"
             "            is_excluded = True\n            break"),
-        3: ("if not is_excluded:\n    for dir_ in list(dirs):\n        if dir_ in self.marker_files:\n"
-            "            dirs.remove(dir_)\n            is_excluded = True\n            break\n    else:\n"
+        3: ("if not is_excluded:\n    if any((dir_ in self.marker_files for dir_ in dirs)):\n"
+            "        dirs[:] = [dir_ for dir_ in dirs if dir_ not in self.marker_files]\n"
+            "        is_excluded = True\n    else:\n"
             "        for file_ in files:\n            if file_ in self.marker_files:\n"
             "                is_excluded = True\n                break"),
         4: "if is_excluded and (not root == self.path):\n    dirs[:] = []\n    continue",
@@ -132,10 +134,25 @@ def read_source(ctx: Any = None) -> dict:
         else:
             raise TranslateError("unrecognised test-directory clause: " + _src(v))
 
-    # ---- _extract_metadata: deferral of setup.py projects in the first pass
+    # ---- _extract_metadata: (optionally) one analysis at a time; deferral of setup.py projects in
+    # the first pass; MetadataError and SystemExit mean "this project cannot be analysed"
     em = _method(cls, "_extract_metadata")
     if [a.arg for a in em.args.args] != ["self", "allow_setup_py", "source_dir"]:
         raise TranslateError("_extract_metadata: argument list changed")
+    serialised = False
+    if len(em.body) == 1 and isinstance(em.body[0], ast.With):
+        w = em.body[0]
+        ok = (len(w.items) == 1 and _src(w.items[0].context_expr) == "_ANALYSIS_LOCK" and w.items[0].optional_vars is None
+              and [_src(x) for x in w.body] == ["return self._extract_metadata_locked(allow_setup_py, source_dir)"])
+        if not ok:
+            raise TranslateError("_extract_metadata: lock wrapper changed:\n" + _src(w))
+        lock = _src(T.module_const(mod, "_ANALYSIS_LOCK"))
+        if lock not in ("threading.RLock()", "threading.Lock()"):
+            raise TranslateError("_ANALYSIS_LOCK is not a threading lock: " + lock)
+        em = _method(cls, "_extract_metadata_locked")
+        if [a.arg for a in em.args.args] != ["self", "allow_setup_py", "source_dir"]:
+            raise TranslateError("_extract_metadata_locked: argument list changed")
+        serialised = True
     first = em.body[0]
     ok = (isinstance(first, ast.If) and _src(first.test) == "not allow_setup_py" and not first.orelse
           and len(first.body) == 1 and isinstance(first.body[0], ast.If) and not first.body[0].orelse
@@ -150,12 +167,14 @@ def read_source(ctx: Any = None) -> dict:
         raise TranslateError("_extract_metadata: deferral test changed: " + _src(t))
     defer_file = t.args[0].args[1].value
     second = em.body[1] if len(em.body) == 2 else None
-    ok = (isinstance(second, ast.Try) and len(second.handlers) == 1 and not second.finalbody and not second.orelse
-          and _src(second.handlers[0].type) == "req_compile.errors.MetadataError"
-          and _src(second.handlers[0].body[-1]) == "return (source_dir, None)"
+    ok = (isinstance(second, ast.Try) and not second.finalbody and not second.orelse
+          and [_src(h.type) for h in second.handlers] == ["req_compile.errors.MetadataError", "SystemExit"]
+          and all(_src(h.body[-1]) == "return (source_dir, None)" for h in second.handlers)
+          and all(not any(isinstance(n, ast.Raise) for x in h.body for n in ast.walk(x)) for h in second.handlers)
           and _src(second.body[-1]) == "return (source_dir, req_compile.metadata.extract_metadata(source_dir, origin=self))")
     if not ok:
-        raise TranslateError("_extract_metadata: analysis block changed")
+        raise TranslateError("_extract_metadata: analysis block changed (handlers must be MetadataError, SystemExit, "
+                             "each returning (source_dir, None))")
 
     # ---- _find_all_distributions: two passes
     fd = _method(cls, "_find_all_distributions")
@@ -197,6 +216,7 @@ def read_source(ctx: Any = None) -> dict:
         "special_dirs": special, "marker_files_default": markers, "project_files": project_files,
         "testdir_names": names, "testdir_suffixes": suffixes, "defer_file": defer_file,
         "pass1_allow_setup_py": allow1, "pass2_allow_setup_py": allow2,
+        "analysis_serialised": serialised,
     }
 
 
@@ -214,4 +234,6 @@ def gen_consts() -> str:
     out += f"Definition defer_file : string := {T.coq_str(c['defer_file'])}.\n"
     out += f"Definition pass1_allow_setup_py : bool := {b(c['pass1_allow_setup_py'])}.\n"
     out += f"Definition pass2_allow_setup_py : bool := {b(c['pass2_allow_setup_py'])}.\n"
+    out += ("(* _extract_metadata runs under one process-wide lock (the analysis code monkey-patches process state) *)\n"
+            f"Definition analysis_serialised : bool := {b(c['analysis_serialised'])}.\n")
     return out
